@@ -552,6 +552,7 @@ def inline_new_helpers(prog, inventory, repo_prefix):
                             p = nxt
                         return n
                 return n
+            g["body"] = _hoist_condition_calls(g["body"], site, g, inl)
             g["body"] = rewrite(g["body"], False)
             changed += inl.count
         total += changed
@@ -690,3 +691,69 @@ def unroll_constant_tables(prog, repo_prefix):
         fn["body"] = _rewrite(fn["body"], unroll)
         fn.pop("_stable_locals", None)
     return done
+
+
+def _hoist_condition_calls(body, site, g, inl):
+    """`if(<cond containing helper(args)>) ...` directly inside a block, where the call of a new statement-bodied helper is the
+    first thing the condition evaluates (it is reached from the root of the condition through parentheses, casts, !, -, comparisons
+    and arithmetic whose other operand has no effects, and the left operand of && / ||), becomes
+    `const T __hoisted = helper(args); if(<cond with __hoisted>) ...` - the same evaluation order - so that the ordinary
+    declaration-initialiser inlining applies."""
+    def find(e):
+        """(parent, index) of the hoistable call in condition e, or None"""
+        cur, parent, idx = e, None, None
+        while True:
+            core = cur
+            hit, _ = site(strip(core)) if strip(core).get("k") in ("CallExpr", "CXXMemberCallExpr") else (None, None)
+            if hit is not None:
+                return (parent, idx) if (hit[2] == "tail" and hit[0] is not g and parent is not None) else None
+            k = cur.get("k")
+            ch = cur.get("c", [])
+            if k in ("ParenExpr", "ImplicitCastExpr", "ExprWithCleanups", "MaterializeTemporaryExpr", "CXXBindTemporaryExpr") and len(ch) == 1:
+                parent, idx, cur = cur, 0, ch[0]
+                continue
+            if k == "UnaryOperator" and cur.get("op") in ("!", "-", "+") and len(ch) == 1:
+                parent, idx, cur = cur, 0, ch[0]
+                continue
+            if k == "BinaryOperator" and len(ch) == 2:
+                if cur.get("op") in ("&&", "||"):
+                    parent, idx, cur = cur, 0, ch[0]
+                    continue
+                if cur.get("op") in ("<", "<=", ">", ">=", "==", "!=", "+", "-", "*", "/"):
+                    def has_call(x):
+                        return any(site(y)[0] is not None for y in walk(x) if y.get("k") in ("CallExpr", "CXXMemberCallExpr"))
+                    if has_call(ch[0]) and _effect_free_calls_ok(ch[1]):
+                        parent, idx, cur = cur, 0, ch[0]
+                        continue
+                    if has_call(ch[1]) and _effect_free_calls_ok(ch[0]):
+                        parent, idx, cur = cur, 1, ch[1]
+                        continue
+            return None
+
+    def rec(n):
+        for key in _SUBKEYS + ("var",):
+            if isinstance(n.get(key), dict):
+                n[key] = rec(n[key])
+        for key in ("decls", "handlers"):
+            if isinstance(n.get(key), list):
+                n[key] = [rec(x) if isinstance(x, dict) else x for x in n[key]]
+        if isinstance(n.get("c"), list):
+            out = []
+            for x in n["c"]:
+                x = rec(x) if isinstance(x, dict) else x
+                if n.get("k") == "CompoundStmt" and isinstance(x, dict) and x.get("k") == "IfStmt" and isinstance(x.get("cond"), dict) and "condvar" not in x and not isinstance(x.get("init"), dict):
+                    loc = find(x["cond"])
+                    if loc is not None:
+                        parent, idx = loc
+                        call = parent["c"][idx]
+                        inl.site += 1
+                        did = _FRESH * 11 + inl.site
+                        name = "__hoisted_%d" % inl.site
+                        t = (call.get("t") or "auto")
+                        var = {"k": "Var", "did": did, "name": name, "t": t if t.startswith("const ") else "const " + t, "init": call, "l": x.get("l")}
+                        parent["c"][idx] = {"k": "DeclRefExpr", "l": call.get("l"), "t": t, "vc": "l", "ref": {"did": did, "dk": "Var", "name": name}}
+                        out.append({"k": "DeclStmt", "l": x.get("l"), "decls": [var], "hoisted_from_condition": True})
+                out.append(x)
+            n["c"] = out
+        return n
+    return rec(body)
